@@ -18,5 +18,7 @@ local cc = a .. b .. c .. (d .. e)
 t[#t + 1] = { x = 1; y = 2, }
 t.f, t["g"], t[1] = function() end, nil, false
 do local _ENV = {} end
+local ix = t[ [[key]] ] + t[ [=[k2]=] ][ [[inner]] .. suffix ]
+t[ [[key]] ] = ix
 ;(f or g)(1);
 return
